@@ -79,6 +79,18 @@ class TypedFrame:
         return TypedFrame({n: self.cols[n] for n in flat}, "select")
 
 
+def _typed_drop(self, *names, **kw):
+    flat = []
+    for n in names:
+        flat.extend(n) if isinstance(n, (list, tuple)) else flat.append(n)
+    if any(n not in self.cols for n in flat):
+        raise PyExc(cur().ghost["interp"].make_exc(OtherException))  # polars ColumnNotFoundError
+    return TypedFrame({n: t for n, t in self.cols.items() if n not in flat}, "drop") if flat else self
+
+
+TypedFrame.drop = _typed_drop
+
+
 class TypedLit:
     """pl.lit(value, dtype=T): an expression whose natural type is T"""
 
@@ -349,4 +361,112 @@ class PolarsSetDefault(Contract):
         return thunk
 
 
-CONTRACTS = [PolarsAddMissingColumns, PolarsSetDefault]
+class PolarsStrictFilterColumns(Contract):
+    """strict_filter_columns(check_obj, schema, column_info) - the frame it is GIVEN is the one add_missing_columns returned, while
+    `column_info` was computed from the caller's frame before any parser ran: the frame may hold columns column_info does not list
+    (the added ones).  strict='filter' removes the undeclared columns and nothing else:
+
+        post.every_declared_column_of_the_frame_is_kept      incl. the columns that were just added - with their dtype, in frame order
+        post.exactly_the_undeclared_columns_are_removed      (strict='filter');  strict in {True, False}: the frame is returned as it is
+        exit.undeclared_column_is_an_error_only_when_strict_is_True   (COLUMN_NOT_IN_SCHEMA)
+    Layouts: 1-2 declared columns, each present in the caller's frame or added by add_missing_columns, 0-2 undeclared columns placed
+    before / between / after them; ordered=False (the order obligation is the twins' contract in C08)."""
+
+    target = f"{DFP}.strict_filter_columns"
+    raises = (SchemaError,)
+    check_frame = False
+    split = {"strict": ["filter", True, False], "layout": list(range(18))}
+
+    @staticmethod
+    def _layouts():
+        out = []
+        for decl in (["k0"], ["k0", "k1"]):
+            for added in ([], decl[-1:], list(decl)):
+                for extra in ([], ["x"], ["x", "y"]):
+                    out.append((decl, added, extra))
+        return out
+
+    def make_args(self):
+        from pandera.backends.polars.container import DataFrameSchemaBackend as B
+
+        decl, added, extra = self._layouts()[self.fixed.get("layout", 0)]
+        original = [c for c in decl if c not in added]
+        # the caller's frame: undeclared columns interleaved with the declared ones it holds
+        seen = (extra[:1] + original[:1] + extra[1:] + original[1:])
+        # what add_missing_columns returned: declared columns in schema order, then the undeclared ones
+        frame_cols = decl + [c for c in seen if c not in decl]
+        frame = TypedFrame({c: ("type-of", c) for c in frame_cols}, "argument")
+        cols = DictObj()
+        for k in decl:
+            dict.__setitem__(cols, k, SAny(name=f"column_{k}"))
+        cols.pre = True
+        cols.name = "schema.columns"
+        class DataFrameSchema:  # (only its __name__ is read, for the message)
+            pass
+
+        schema = Obj(DataFrameSchema, "schema", pre=True, fields={})
+        for a, v in (("strict", self.fixed.get("strict", "filter")), ("ordered", False), ("columns", cols)):
+            schema.attrs[a] = v
+            schema.attrs0[a] = v
+        info = Obj(None, "column_info", pre=True, fields={})
+        for a, v in (("sorted_column_names", ListObj([c for c in decl if c in seen])), ("destuttered_column_names", ListObj(list(seen))),
+                     ("expanded_column_names", frozenset(decl)), ("absent_column_names", ListObj(list(added)))):
+            info.attrs[a] = v
+            info.attrs0[a] = v
+        cur().ghost.update(frame_cols=frame_cols, decl=decl, extra=extra, frame=frame)
+        return {"self": T.Ref(B).fresh("self"), "check_obj": frame, "schema": schema, "column_info": info}
+
+    def call_target(self, I, fn, a):
+        return I.call(fn, [a["self"], a["check_obj"], a["schema"], a["column_info"]], {})
+
+    def ensures(self, result, old, self_, check_obj, schema, column_info):
+        g = cur().ghost
+        strict = self.fixed.get("strict", "filter")
+        out = {"returns_a_frame": isinstance(result, TypedFrame)}
+        if not out["returns_a_frame"]:
+            return out
+        if strict == "filter":
+            want = [c for c in g["frame_cols"] if c in g["decl"]]
+            out["every_declared_column_of_the_frame_is_kept"] = all(c in result.cols for c in want)
+            out["exactly_the_undeclared_columns_are_removed"] = list(result.cols) == want
+            out["kept_columns_keep_their_dtype"] = all(result.cols.get(c) == ("type-of", c) for c in want)
+        else:
+            out["frame_returned_as_it_is"] = list(result.cols) == g["frame_cols"] and all(result.cols[c] == ("type-of", c) for c in g["frame_cols"])
+            if strict is True:
+                out["returns_only_without_undeclared_columns"] = g["extra"] == []
+        return out
+
+    def on_raise(self, exc, old, self_, check_obj, schema, column_info):
+        if exc.cls is not SchemaError:
+            return {}
+        g = cur().ghost
+        return {"undeclared_column_is_an_error_only_when_strict_is_True": self.fixed.get("strict") is True and g["extra"] != []
+                and exc.attrs.get("reason_code") is SchemaErrorReason.COLUMN_NOT_IN_SCHEMA and exc.attrs.get("failure_cases") == g["extra"][0]}
+
+    def concretize(self, rec):
+        def thunk():
+            """strict='filter' + add_missing_columns on a frame that lacks a declared column and holds an undeclared one: the result
+            must hold every declared column and nothing else"""
+            import warnings
+
+            import polars as pl
+            import pandera.polars as pp
+
+            warnings.simplefilter("ignore")
+            schema = pp.DataFrameSchema({"a": pp.Column(int), "b": pp.Column(int, default=7)}, strict="filter", add_missing_columns=True)
+            obs, bad = {}, False
+            for name, df in (("DataFrame", pl.DataFrame({"x": [0], "a": [1]})), ("LazyFrame", pl.LazyFrame({"x": [0], "a": [1]}))):
+                try:
+                    out = schema.validate(df)
+                    cols = out.collect_schema().names() if isinstance(out, pl.LazyFrame) else out.columns
+                    obs[name] = cols
+                    bad = bad or cols != ["a", "b"]
+                except Exception as e:  # noqa: BLE001
+                    obs[name] = f"{type(e).__name__}: {e}"[:120]
+                    bad = True
+            return bad, {"input columns": ["x", "a"], "declared": ["a", "b (default 7)"], "returned columns": obs}
+
+        return thunk
+
+
+CONTRACTS = [PolarsAddMissingColumns, PolarsSetDefault, PolarsStrictFilterColumns]
